@@ -149,17 +149,21 @@ theorem ite_core {c : Prop} [Decidable c] {a b : IR} {x : Core}
   · simp only [inheritFunction_core]
     split <;> simp
 
-@[simp] theorem joinCode_core (ir : IR) (b1 : Block) (id2 : Nat) : (ir.joinCode b1 id2).core = ir.core := by
+@[simp] theorem joinCode_core (ir : IR) (b1 : Block) (id2 s2 : Nat) :
+    (ir.joinCode b1 id2 s2).core = ir.core := by
   unfold IR.joinCode
   simp only [removeFunctionBlock_core]
-  rw [foldl_core _ (by intro i e; rfl)]
   have h1 : ∀ (x : IR), ((x.inEdges id2).foldl (fun ir e =>
       if Edge.isFall e && e.src == .block b1.id then { ir with cfg := cfgDiscard ir.cfg e } else ir) x).core
       = x.core := by
     intro x; apply foldl_core; intro i e; split <;> rfl
+  have h2 : ∀ (x : IR), (if b1.size == 0 then
+      (x.inEdges id2).foldl (fun ir e => ir.updateEdge e (updDst e (.block b1.id))) x
+    else (x.inEdges id2).foldl (fun ir e => { ir with cfg := cfgDiscard ir.cfg e }) x).core = x.core := by
+    intro x; split <;> (apply foldl_core; intro i e; rfl)
   split
-  · rw [foldl_core _ (by intro i e; rfl)]; exact h1 ir
-  · rw [foldl_core _ (by intro i e; rfl)]; exact h1 ir
+  · rw [foldl_core _ (by intro i e; rfl), h2, h1]
+  · rw [foldl_core _ (by intro i e; rfl), h2, h1]
 
 @[simp] theorem removeInEdges_core (ir : IR) (blk : Block) (p n : Option Nat) (nc : Bool) :
     (ir.removeInEdges blk p n nc).core = ir.core := by
@@ -191,6 +195,16 @@ theorem ite_core {c : Prop} [Decidable c] {a b : IR} {x : Core}
     simp only []
     split
     · exact (removeReturnEdgesFromCallee_core i e _)
+    · rfl
+
+@[simp] theorem connectEmptyTail_core (ir : IR) (t : Nat) : (ir.connectEmptyTail t).core = ir.core := by
+  unfold IR.connectEmptyTail
+  split
+  · rfl
+  · split
+    · split
+      · split <;> rfl
+      · rfl
     · rfl
 
 /-! the table-writing steps still leave symbols and blocks alone -/
